@@ -81,7 +81,14 @@ func TestVerifC22ALPS(t *testing.T) {
 			}
 		}
 		st.Eval()
-		prep, err := vfPrepareClient(src, sni, rapid.Uint64().Draw(rt, "randseed"), func(c *Config) { c.ApplicationSettings = settings })
+		// client authentication: the client's EncryptedExtensions comes first in its flight, before Certificate
+		clientAuth := []string{"none", "none", "requested-no-cert", "requested-cert"}[rapid.IntRange(0, 3).Draw(rt, "client_auth")]
+		prep, err := vfPrepareClient(src, sni, rapid.Uint64().Draw(rt, "randseed"), func(c *Config) {
+			c.ApplicationSettings = settings
+			if clientAuth == "requested-cert" {
+				c.Certificates = []Certificate{*vfLeaf(vfLeafSpec{KeyType: "ecdsa", Names: []string{"client.c22.test"}})}
+			}
+		})
 		if err != nil {
 			st.Violation(rt, "%s: %v", src, err)
 		}
@@ -143,12 +150,14 @@ func TestVerifC22ALPS(t *testing.T) {
 		if len(keys) == 0 {
 			return
 		}
+		s.CertRequest = clientAuth != "none"
+		st.Class("client-auth=" + clientAuth)
 		scfg := vfServerConfig(keys[0], vfCertNames(sni)...)
 		srv := Server(prep.SP, scfg)
 		vsrvInstall(srv, s)
 		pair := &vfPair{CP: prep.CP, SP: prep.SP, Cli: prep.UC, Srv: srv}
 		cerr, serr := pair.Handshake()
-		desc := fmt.Sprintf("%s | mode=%s ALPN=%q ALPS codepoint=%d (offered %v for %v) server settings %d bytes, client configured %v", src, mode, *s.ALPN, s.ALPSCodepoint, offeredCP, alpsProtos, len(s.ALPSData), vf22Describe(settings))
+		desc := fmt.Sprintf("%s | client-auth=%s mode=%s ALPN=%q ALPS codepoint=%d (offered %v for %v) server settings %d bytes, client configured %v", src, clientAuth, mode, *s.ALPN, s.ALPSCodepoint, offeredCP, alpsProtos, len(s.ALPSData), vf22Describe(settings))
 		st.Class("mode=" + mode)
 		st.Class(fmt.Sprintf("codepoint=%d", s.ALPSCodepoint))
 		if cerr == errVfHang || serr == errVfHang {
